@@ -134,4 +134,7 @@ theorem layout_blits (spL smL metaL payL : Nat) :
   simp only [enc_metaStart, List.cons.injEq, Blit.u32.injEq, Blit.copy.injEq, Option.some.injEq, and_true, true_and]
   omega
 
+/-- the tie: the layout of EncodeSlicePointer was translated from the current source this run -/
+theorem tie_layout : Gen.layoutTieOk = true := by decide
+
 end Rpcx.Props.C01
